@@ -458,9 +458,11 @@ def materialize (g : Graph) (s : St) (n : Nat) : Ent :=
   | some (_, ls, ps) => ⟨ls, ps⟩
   | none => ⟨nodeLabels g n, nodeProps g n⟩
 
-/-- write_support.rs `merge_apply_set_items` / `_map_items` / `_label_items` (each item sees the row as updated
-    by the previous one; since fix 3708a8e-series the writes are counted like those of a SET clause) -/
+/-- write_support.rs `merge_apply_set_items` / `_map_items` / `_label_items` (nothing is counted — the suite pins
+    MERGE's count as "entities created", tests/t323_merge_semantics.rs; each item sees the row as updated by the
+    previous one) -/
 def mergeApplySet (g : Graph) (items : List SetItem) (s : St) (u : URow) : Except Err (St × URow) := do
+  let c := s.count
   let ps := items.filterMap fun | .prop x k e => some (x, k, e) | _ => none
   let ms := items.filterMap fun
     | .mapReplace x m => some (x, m, false) | .mapMerge x m => some (x, m, true) | _ => none
@@ -477,14 +479,13 @@ def mergeApplySet (g : Graph) (items : List SetItem) (s : St) (u : URow) : Excep
     match rowNode u.row x with
     | some n =>
       for l in labels do
-        -- `had` and `overlay_add_label_value` only look at / update a materialised node value
-        let had := match u.ov.lookup x with | some e => e.labels.contains l | none => false
-        s := { s with ops := s.ops ++ [.addLabel n l], count := s.count + (if had then 0 else 1) }
+        s := { s with ops := s.ops ++ [.addLabel n l] }
+        -- `overlay_add_label_value` only updates a materialised node value
         match u.ov.lookup x with
         | some ent => u := u.setOv x { ent with labels := if ent.labels.contains l then ent.labels else ent.labels ++ [l] }
         | none => pure ()
     | none => throw .other
-  return (s, u)
+  return ({ s with count := c }, u)
 
 /-- `merge_collect_edges_between`: one entry per copy, unless the pattern has relationship properties -/
 def edgesBetween (g : Graph) (s : St) (a b : Nat) (ty : String) (dir : Dir) (props : Props) : List RelId :=
